@@ -74,28 +74,32 @@ Definition encR (sc : list frame) (ce : cenv) (vs : list sv) (fin : option exn) 
   | Some (XErr e0) => e = Some (VE (err_of e0))
   | Some (XBrk l) => exists x k id, lookup l (ce_lbls ce) = Some x /\ index_of sc x = Some k /\
                                     nth_error vs k = Some (SLbl id) /\ e = Some (VE (EB id))
+  | Some XFuel => False
   end.
 
 Definition lblOK (sc : list frame) (ce : cenv) (vs : list sv) (n0 : nat) : Prop :=
   forall l x, lookup l (ce_lbls ce) = Some x -> exists k id, index_of sc x = Some k /\ nth_error vs k = Some (SLbl id) /\ id < n0.
 
+(* the slots of all value variables in the compile-time environment, shadowed ones included (a function defined
+   while a variable was visible still refers to it after the name has been rebound), and of the visible labels *)
 Definition kept (sc : list frame) (ce : cenv) (k : nat) : Prop :=
-  (exists x y, lookup x (ce_vars ce) = Some y /\ index_of sc y = Some k) \/
+  (exists x y, In (x, CV y) (ce_env ce) /\ index_of sc y = Some k) \/
   (exists l y, lookup l (ce_lbls ce) = Some y /\ index_of sc y = Some k).
 
 Lemma encR_okerr : forall sc ce vs n0 fin x, lblOK sc ce vs n0 -> encR sc ce vs fin (Some x) -> okerr n0 x.
 Proof.
-  intros sc ce vs n0 fin x HL HE. destruct fin as [[e0|l]|]; simpl in HE.
+  intros sc ce vs n0 fin x HL HE. destruct fin as [[e0|l|]|]; simpl in HE.
   - inversion HE; subst. destruct e0; simpl; auto.
   - destruct HE as (y & k & id & Hk & Hi & Hn & E). inversion E; subst. simpl.
     destruct (HL _ _ Hk) as (k' & id' & Hi' & Hn' & Hlt). congruence.
+  - contradiction.
   - discriminate.
 Qed.
 
 Lemma encR_stable : forall sc ce vs vs' fin e,
   (forall k, kept sc ce k -> nth_error vs k = nth_error vs' k) -> encR sc ce vs fin e -> encR sc ce vs' fin e.
 Proof.
-  intros sc ce vs vs' fin e H HE. destruct fin as [[e0|l]|]; simpl in *; auto.
+  intros sc ce vs vs' fin e H HE. destruct fin as [[e0|l|]|]; simpl in *; auto.
   destruct HE as (y & k & id & Hk & Hi & Hn & E). exists y, k, id. repeat split; auto.
   rewrite <- H; auto. right. eauto.
 Qed.
@@ -130,10 +134,17 @@ Fixpoint G2 (c : gctx) (ws : list jv) (T Tw : state -> Prop) (s : state) : Prop 
 
 Notation G c ws T := (G2 c ws T T).
 
-(* the end of an enumeration: the machine backtracks into the base forks with the error state of fin *)
-Definition Tend (c : gctx) (fin : option exn) (P : list sv -> nat -> gx -> Prop) (s : state) : Prop :=
+(* the end of an enumeration: the machine backtracks into the base forks with the error state of fin.  When the
+   denotation ran out of fuel nothing is claimed *)
+Definition TendX (c : gctx) (fin : option exn) (P : list sv -> nat -> gx -> Prop) (s : state) : Prop :=
   exists e vs n g, steps s (B e (g_base c) vs n g) /\ chg (g_own c) (vars_of s) vs /\
                    cle (lbl_of s) (gx_of s) n g /\ encR (g_sc c) (g_ce c) vs fin e /\ P vs n g.
+Definition Tend (c : gctx) (fin : option exn) (P : list sv -> nat -> gx -> Prop) (s : state) : Prop :=
+  match fin with Some XFuel => True | _ => TendX c fin P s end.
+Lemma Tend_inv : forall c fin P s, Tend c fin P s -> fin = Some XFuel \/ TendX c fin P s.
+Proof. intros c [[e0|l|]|] P s H; auto. Qed.
+Lemma Tend_of : forall c fin P s, TendX c fin P s -> Tend c fin P s.
+Proof. intros c [[e0|l|]|] P s H; simpl; auto. Qed.
 
 Lemma G_pre : forall c ws T Tw s s1,
   steps s s1 -> chg (g_own c) (vars_of s) (vars_of s1) -> cle (lbl_of s) (gx_of s) (lbl_of s1) (gx_of s1) ->
@@ -228,9 +239,9 @@ Proof.
 Qed.
 
 Lemma encR_some : forall sc ce vs ex e, encR sc ce vs (Some ex) e -> exists y, e = Some y.
-Proof. intros sc ce vs [e0|l] e H; simpl in H; [eauto|]. destruct H as (? & ? & ? & ? & ? & ? & ?). eauto. Qed.
+Proof. intros sc ce vs [e0|l|] e H; simpl in H; [eauto| |contradiction]. destruct H as (? & ? & ? & ? & ? & ? & ?). eauto. Qed.
 Lemma encR_lbls : forall sc ce ce' vs fin e, ce_lbls ce = ce_lbls ce' -> encR sc ce vs fin e -> encR sc ce' vs fin e.
-Proof. intros sc ce ce' vs [[e0|l]|] e H HE; simpl in *; auto. rewrite <- H. auto. Qed.
+Proof. intros sc ce ce' vs [[e0|l|]|] e H HE; simpl in *; auto. rewrite <- H. auto. Qed.
 
 (* the generic composition: an inner generator (context c1) whose every output starts a body that is
    itself a generator towards the outer exit (context c), with a ghost state g evolving along the way
@@ -292,8 +303,9 @@ Lemma G_fold : forall ws1 g s fin1 os x g',
   G c os (Tend c (match x with Some e => Some e | None => fin1 end) (Jf g')) s.
 Proof.
   induction ws1; intros g s fin1 os x g' HG HJ Hcs HF; simpl in HF.
-  - inversion HF; subst. simpl in HG. destruct HG as (s' & St & Ch & Le & (e & vs & n & gg & St2 & Ch2 & Le2 & HE & _)).
+  - inversion HF; subst. simpl in HG. destruct HG as (s' & St & Ch & Le & HT).
     simpl. exists s. split; [constructor|]. split; [apply chg_refl|]. split; [apply cle_refl|].
+    destruct (Tend_inv _ _ _ _ HT) as [->|(e & vs & n & gg & St2 & Ch2 & Le2 & HE & _)]; [exact I|]. apply Tend_of.
     exists e, vs, n, gg. rewrite <- Hbase, <- Hce, <- Hsc.
     assert (C : chg (g_own c1) (vars_of s) vs) by (eapply chg_trans; eauto).
     assert (L : cle (lbl_of s) (gx_of s) n gg) by (eapply cle_trans; eauto).
@@ -336,13 +348,15 @@ Proof.
       assert (Hfin : forall s1, Q (vars_of s1) (lbl_of s1) (gx_of s1) ->
                 Tend (cbody [] o3 (ctr g3)) x1 (Jf g1) s1 ->
                 Tend c (match x1 with Some e => Some e | None => fin1 end) (Jf g1) s1).
-      { intros s1 HQ1 (e & vs4 & n4 & g4 & St4 & Ch4 & Le4 & HE & HJ4). simpl in St4, Ch4. cbn [cbody g_sc g_ce] in HE.
+      { intros s1 HQ1 HT1. destruct (Tend_inv _ _ _ _ HT1) as [->|(e & vs4 & n4 & g4 & St4 & Ch4 & Le4 & HE & HJ4)]; [exact I|].
+        simpl in St4, Ch4. cbn [cbody g_sc g_ce] in HE.
         apply encR_lbls with (ce' := g_ce c) in HE; auto.
         destruct x1 as [ex|].
-        - exists e, vs4, n4, g4. split; [exact St4|]. split; [exact (chg_mono _ _ _ _ Hob Ch4)|]. split; [exact Le4|]. split; [exact HE|exact HJ4].
+        - apply Tend_of. exists e, vs4, n4, g4. split; [exact St4|]. split; [exact (chg_mono _ _ _ _ Hob Ch4)|]. split; [exact Le4|]. split; [exact HE|exact HJ4].
         - simpl in HE. subst e.
           assert (HQ4 : Q vs4 n4 g4) by (eapply Q1; eauto). destruct HQ4 as [K4 Hn4]. simpl in K4.
-          destruct (R vs4 n4 g4 K4 Hn4) as (e5 & vs5 & n5 & g5 & St5 & Ch5 & Le5 & HE5 & _). simpl in St5, Ch5. rewrite Hbase in St5.
+          destruct (Tend_inv _ _ _ _ (R vs4 n4 g4 K4 Hn4)) as [->|(e5 & vs5 & n5 & g5 & St5 & Ch5 & Le5 & HE5 & _)]; [exact I|].
+          simpl in St5, Ch5. rewrite Hbase in St5. apply Tend_of.
           exists e5, vs5, n5, g5. split; [eapply steps_trans; eauto|].
           split; [exact (chg_trans _ _ _ _ (chg_mono _ _ _ _ Hob Ch4) (chg_mono _ _ _ _ Hown1 Ch5))|]. split; [eapply cle_trans; eauto|].
           split; [rewrite <- Hsc, <- Hce; exact HE5|]. eapply Jf1; eauto. }
@@ -364,7 +378,9 @@ Proof.
         eapply G_pre; [exact St|exact (chg_mono _ _ _ _ Hown1 Ch)|exact Le|].
         assert (Hfin : forall s1, Q (vars_of s1) (lbl_of s1) (gx_of s1) ->
                   Tend (cbody (f0 :: fk0) o3 (ctr g3)) (Some ex) (wk (f0 :: fk0) (J g') (Jf g')) s1 -> Tend c (Some ex) (Jf g') s1).
-        { intros s1 HQ1 (e & vs4 & n4 & g4 & St4 & Ch4 & Le4 & HE & HJ4). simpl in St4, Ch4, HJ4. cbn [cbody g_sc g_ce] in HE.
+        { intros s1 HQ1 HT1. destruct (Tend_inv _ _ _ _ HT1) as [E|(e & vs4 & n4 & g4 & St4 & Ch4 & Le4 & HE & HJ4)];
+            [inversion E; subst ex; exact I|].
+          simpl in St4, Ch4, HJ4. cbn [cbody g_sc g_ce] in HE. apply Tend_of.
           destruct (encR_some _ _ _ _ _ HE) as (y & ->).
           apply encR_lbls with (ce' := g_ce c) in HE; auto.
           assert (Hy : okerr (g_n0 c) y) by (eapply encR_okerr; eauto).
@@ -384,7 +400,8 @@ Proof.
         assert (Hfin : forall s1, Q (vars_of s1) (lbl_of s1) (gx_of s1) ->
                   Tend (cbody (f0 :: fk0) o3 (ctr g3)) None (wk (f0 :: fk0) (J g1) (Jf g1)) s1 ->
                   G c os2 (Tend c (match x with Some e => Some e | None => fin1 end) (Jf g')) s1).
-        { intros s1 HQ1 (e & vs4 & n4 & g4 & St4 & Ch4 & Le4 & HE & HJ4). simpl in St4, Ch4, HE, HJ4. subst e.
+        { intros s1 HQ1 HT1. destruct (Tend_inv _ _ _ _ HT1) as [E|(e & vs4 & n4 & g4 & St4 & Ch4 & Le4 & HE & HJ4)]; [discriminate E|].
+          simpl in St4, Ch4, HE, HJ4. subst e.
           assert (HQ4 : Q vs4 n4 g4) by (eapply Q1; eauto).
           destruct HQ4 as [K4 Hn4]. simpl in K4. destruct (R vs4 n4 g4 K4 Hn4) as [R1 _]. rewrite Hbase in R1.
           eapply G_pre; [exact St4|exact (chg_mono _ _ _ _ Hob Ch4)|exact Le4|].
